@@ -712,6 +712,80 @@ theorem C03_missing_receiver_excused (s : Server) (hw : WF s) (hcd : ConnDistinc
 
 end Mochi.Broker
 
+/-! ### Non-vacuity (item 5): a QoS 1 publication to three QoS 1 subscribers — served, deferred, at the limit -/
+namespace Mochi.Broker
+open Mochi.Topics
+
+/-- `x` (MQTT 3.1.1, connection 1), `y` (MQTT 5, connection 2, Receive Maximum 1), `z` (MQTT 5, connection 3)
+    subscribe `a/b` at QoS 1 (`z` also `c`); `p` (connection 4) publishes `a/b` at QoS 1: all three hold the copy in
+    flight; `x` acknowledges; `p` publishes `c` at QoS 1: `z` holds two.  The broker's in-flight limit is 2. -/
+def q1History : List Op :=
+  [.connect 1 { ver := 4, id := [120] },
+   .recv 1 (.subscribe 1 0 [{ filter := [97, 47, 98], qos := 1 }]),
+   .connect 2 { ver := 5, id := [121], rm := some 1 },
+   .recv 2 (.subscribe 1 0 [{ filter := [97, 47, 98], qos := 1 }]),
+   .connect 3 { ver := 5, id := [122] },
+   .recv 3 (.subscribe 1 0 [{ filter := [97, 47, 98], qos := 1 }, { filter := [99], qos := 1 }]),
+   .connect 4 { ver := 5, id := [112] },
+   .recv 4 (.publish 1 false false 1 [97, 47, 98] [1] 0 none),
+   .recv 1 (.puback 1 0),
+   .recv 4 (.publish 1 false false 2 [99] [2] 0 none)]
+
+def q1State : Server := run (init { maximumInflight := 2 }) q1History
+
+/-- the next publication: `a/b`, QoS 1, by `p` -/
+def q1Msg : Msg := { topic := [97, 47, 98], payload := [3], qos := 1, id := 3, origin := [112] }
+
+theorem q1State_reach : ReachSeq { maximumInflight := 2 } q1State :=
+  ReachSeq.init.run q1History (by decide) (by decide)
+
+theorem q1State_noAliases : Q1.NoAliases q1State :=
+  fun id i h => (by decide : ∀ e ∈ q1State.clients, (getObj q1State e.2).tam = 0) (id, i) h
+
+/-- the hypotheses of `publishToSubscribers_writes_exact_qos` hold in `q1State` for `q1Msg` … -/
+example : q1Msg.ignore = false ∧ q1Msg.type = 3 ∧ (subscribers q1State.topics q1Msg.topic).shared = [] ∧
+    (subscribers q1State.topics q1Msg.topic).subs.map (fun cs => (cs.1, cs.2.qos)) = [([120], 1), ([121], 1), ([122], 1)] ∧
+    q1State.clients = [(inlineID, 0), ([120], 1), ([121], 2), ([122], 3), ([112], 4)] := by decide
+
+/-- … the three deliveries are in cases (d), (c) and (a): `x` is served under identifier 2, `y` has used its Receive
+    Maximum of 1 (send quota 0), `z` holds 2 = `maximumInflight` records … -/
+example : Q1.verdict q1State 1 = .sent 2 ∧ Q1.verdict q1State 2 = .deferred 2 ∧ Q1.verdict q1State 3 = .limit ∧
+    (getObj q1State 2).sendQuota = 0 ∧ (getObj q1State 2).maxSend = 1 ∧ (getObj q1State 3).inflight.length = 2 := by
+  decide
+
+/-- … only connection 1 is written; `y`'s copy is stored deferred (`expiry = -1`) under the fresh identifier 2 next to
+    its record 1; `z`'s object is unchanged and the dropped counter moved; `x` holds the copy under identifier 2 -/
+example : (publishToSubscribers q1State q1Msg).2.filterMap pubConn = [1] ∧
+    (getObj (publishToSubscribers q1State q1Msg).1 2).inflight.map (fun m => (m.id, m.qos, decide (m.expiry = -1))) =
+      [(1, 1, false), (2, 1, true)] ∧
+    (getObj (publishToSubscribers q1State q1Msg).1 3).inflight.map (·.id) = (getObj q1State 3).inflight.map (·.id) ∧
+    (publishToSubscribers q1State q1Msg).1.info.inflightDropped = q1State.info.inflightDropped + 1 ∧
+    (getObj (publishToSubscribers q1State q1Msg).1 1).inflight.map (fun m => (m.id, m.qos, m.dup)) = [(2, 1, false)] := by
+  decide
+
+/-- the theorem, instantiated: connection 1 is served; 2 and 3 are ENTITLED but not served -/
+example : Q1.ServedVia q1State q1Msg (subscribers q1State.topics q1Msg.topic).subs 1 ∧
+    ¬ Q1.ServedVia q1State q1Msg (subscribers q1State.topics q1Msg.topic).subs 2 ∧
+    ¬ Q1.ServedVia q1State q1Msg (subscribers q1State.topics q1Msg.topic).subs 3 ∧
+    EntitledVia q1State q1Msg (subscribers q1State.topics q1Msg.topic).subs 2 ∧
+    EntitledVia q1State q1Msg (subscribers q1State.topics q1Msg.topic).subs 3 := by
+  have hr := q1State_reach.inv
+  have h := fun n => (publishToSubscribers_writes_exact_qos q1State hr.2.1 hr.2.2.1.distinct q1State_noAliases q1Msg
+    rfl rfl (by decide) n).1
+  have ho : (publishToSubscribers q1State q1Msg).2.filterMap pubConn = [1] := by decide
+  refine ⟨(h 1).mp (mem_pubConns.mp (by rw [ho]; decide)), ?_, ?_,
+    ⟨[121], 2, { filter := [97, 47, 98], qos := 1, idents := some [([97, 47, 98], 0)] }, by decide, by decide, by decide,
+      by decide, by decide, by decide, by decide, by decide⟩,
+    ⟨[122], 3, { filter := [97, 47, 98], qos := 1, idents := some [([97, 47, 98], 0)] }, by decide, by decide, by decide,
+      by decide, by decide, by decide, by decide, by decide⟩⟩ <;>
+  · intro e
+    have := mem_pubConns.mpr ((h _).mpr e)
+    rw [ho] at this
+    revert this
+    decide
+
+end Mochi.Broker
+
 #print axioms Mochi.Broker.publishToSubscribers_writes_exact
 #print axioms Mochi.Broker.C03_delivery_exact_state_partial
 #print axioms Mochi.Broker.C03_delivery_exact_runOps_partial
